@@ -91,10 +91,27 @@ def run(ctx, idx):
             q = r.meta.get("qual")
             if getattr(r.ast, "exc", None) is None and isinstance(r.ast, ast.Raise):
                 continue  # re-raise of what the handler caught; classified at its origin
+            quals = [q]
             if q is None:
-                raise AnalysisError("C13.b: cannot resolve the class raised at %s:%s" % (K.rel(f), r.line))
+                # `error = A if c else B; raise error(...)`: every alternative is classified
+                exc = getattr(r.ast, "exc", None)
+                callee = exc.func if isinstance(exc, ast.Call) else exc
+                alts = []
+                if isinstance(callee, ast.Name):
+                    d_ = K.single_defs(f).get(callee.id)
+                    work = [d_] if d_ is not None else []
+                    while work:
+                        x_ = work.pop()
+                        if isinstance(x_, ast.IfExp):
+                            work += [x_.body, x_.orelse]
+                        else:
+                            alts.append(idx.qualname(f.module, x_, f) if isinstance(x_, (ast.Name, ast.Attribute)) else None)
+                if not alts or any(a_ is None for a_ in alts):
+                    raise AnalysisError("C13.b: cannot resolve the class raised at %s:%s" % (K.rel(f), r.line))
+                quals = alts
+                q = alts[0]
             n_raise += 1
-            good = q in ("builtins.SyntaxError",) or is_mpilot_error(idx, q) or (f.name in ("execute",))
+            good = all(q_ in ("builtins.SyntaxError",) or is_mpilot_error(idx, q_) for q_ in quals) or (f.name in ("execute",))
             if q == "builtins.NotImplementedError" and f.cls is A.command:
                 continue
             ctx.ob("C13.b", "%s::raise(%s)" % (f.key, q.split(".")[-1]), K.rel(f), r.line, good,
